@@ -46,6 +46,7 @@ CFG = {
         'C05_offsets (i-th offset = position of chunk i payload) is part of C05_conformant (Spec.decode checks every offset against the true position)',
         '64-bit half (RoaringTreemap), no proof gap: C05_t_size, C05_t_framing (u64 count, strictly ascending u32 keys, each followed by the standard 32-bit stream of the partition), C05_t_decode / C05_t_decode_eq (both decoders, both build configurations, arbitrary trailing bytes), C05_t_bytes (Treemap.serialize t = Spec.encode64 (Treemap.elems t)), C05_t_deterministic (+ C05_t_deterministic_repr via Treemap.canonical, C05_t_injective) and C05_t_conformant (the strict reference decoder Spec.decode64 accepts the output and reads back elems t) are proved unconditionally for well-formed treemaps = Treemap.WFd Bitmap.WF (Treemap.TWF, the invariant of the other treemap families: strictly ascending u32 keys, every partition Bitmap.WF with an element; C05_t_wf_iff: equivalent to the codec view "... and not the empty bitmap"), lifted from the 32-bit theorems through the bucket loop (Lemmas/TreemapCodec.lean, TreemapEncodeSpec.lean, TreemapCodecWF.lean)',
         'the former 64-bit partial theorems C05_t_bytes_partial / C05_t_deterministic_partial are replaced by the unconditional C05_t_bytes / C05_t_deterministic (the inherited 32-bit hypothesis Kernel.bitmap_toArray is discharged; bucket keys = distinct high halves, bucket contents = low halves: Lemmas/TreemapEncodeSpec.lean)',
+        'model-fidelity audit (notes/fidelity-codecs.md): serialized_size, serialize_into, both decoders and the treemap framing were compared with the Rust line by line and are mirrored (same loops, case split, read order, arithmetic). One arithmetic gap closed: the cardinality field `(container.len() - 1) as u16` is u64 arithmetic in Rust (panic with overflow checks / 0xFFFF without, for an empty container) but was a truncated Nat subtraction in Bitmap.serialize; the driver now executes Bitmap.serializeM / Treemap.serializeM with the exact arithmetic (`ser`, `tser`, `dump`, `deser_prefix`, `tdeser_prefix`), proved equal to serialize whenever no container is empty (Fidelity.serializeM_eq / tserializeM_eq) and the property theorems are restated for them: C05_serialize_mirror_eq, C05_bytes_mirror, C05_decode_mirror, C05_t_serialize_mirror_eq, C05_t_bytes_mirror. The difference was observable only on the ill-formed value that deserialize_unchecked_from builds from a zero-run chunk (reproducer: corpus/C05/nonwf-empty-container-ser.ops.norun; not a property violation)',
     ],
     "level_text": "Lean 4 theorems over the executable model of serialize_into / serialized_size / both decoders: size law, "
                   "equality with an independent reference encoder written from the format specification (Spec.encode, "
